@@ -793,47 +793,63 @@ class LayerBuilder(object):
       a["default_input_value"] = -1 if s.chance(0.4) else None
       a["split_outputs"] = bool(a["units"] > 1 and s.chance(0.4))
     elif kind == "lattice":
-      dims = s.integer(1, 3)
+      # A theme guarantees that each optional 2D constraint is actually
+      # exercised (drawn independently they almost never fit the dims).
+      theme = s.weighted([("plain", 3), ("unimodal", 2), ("joint_unimodal", 2),
+                          ("trust", 3), ("dominance", 3), ("joint_mono", 2)])
+      a["theme"] = theme
+      dims = s.integer(1, 3) if theme in ("plain", "unimodal") else (
+          s.integer(2, 3))
       sizes = [s.weighted([(2, 4), (3, 3), (4, 1)]) for _ in range(dims)]
+      monos = [int(s.chance(0.5)) for _ in range(dims)]
+      if theme == "unimodal":
+        monos[0] = 0
+        sizes[0] = max(sizes[0], 3)
+      elif theme == "joint_unimodal":
+        monos[0] = monos[1] = 0
+        sizes[0], sizes[1] = max(sizes[0], 3), max(sizes[1], 3)
+      elif theme == "trust":
+        monos[0], monos[1] = 1, 0
+      elif theme == "dominance":
+        monos[0] = monos[1] = 1
+      elif theme == "joint_mono":
+        monos[0] = monos[1] = 0
       a["lattice_sizes"] = sizes
       a["units"] = s.weighted([(1, 3), (2, 2)])
-      monos = [int(s.chance(0.5)) for _ in range(dims)]
       a["monotonicities"] = s.choice([
           monos, ["increasing" if m else "none" for m in monos]])
-      free = [d for d in range(dims) if not monos[d] and sizes[d] >= 3]
       a["unimodalities"] = None
       a["joint_unimodalities"] = None
-      if free and s.chance(0.35):
-        un = [0] * dims
-        un[free[0]] = s.choice([1, -1, "valley", "peak"])
-        a["unimodalities"] = un
-      elif len(free) >= 2 and s.chance(0.5):
-        ju = [[free[0], free[1]], s.choice(["valley", "peak"])]
-        a["joint_unimodalities"] = {"single": s.chance(0.5), "value": ju}
-      mains = [d for d in range(dims) if monos[d]]
-      conds = [d for d in range(dims) if not monos[d]]
-      used_un = set()
-      if a["unimodalities"]:
-        used_un = {d for d, u in enumerate(a["unimodalities"]) if u}
-      if a["joint_unimodalities"]:
-        used_un |= set(a["joint_unimodalities"]["value"][0])
       a["edgeworth_trusts"] = None
       a["trapezoid_trusts"] = None
-      cands = [c for c in conds if c not in used_un]
-      if mains and cands and s.chance(0.4):
-        t = [mains[0], cands[0], s.choice(["positive", "negative"])]
-        key = s.choice(["edgeworth_trusts", "trapezoid_trusts"])
-        a[key] = {"single": s.chance(0.5), "value": [t]}
       a["monotonic_dominances"] = None
       a["range_dominances"] = None
       a["joint_monotonicities"] = None
-      if len(mains) >= 2 and s.chance(0.4):
+      if theme == "unimodal":
+        un = [0] * dims
+        un[0] = s.choice([1, -1, "valley", "peak"])
+        a["unimodalities"] = un
+      elif theme == "joint_unimodal":
+        a["joint_unimodalities"] = {
+            "single": s.chance(0.5),
+            "value": [[0, 1], s.choice(["valley", "peak"])]}
+      elif theme == "trust":
+        t = [0, 1, s.choice(["positive", "negative", 1, -1])]
+        key = s.choice(["edgeworth_trusts", "trapezoid_trusts"])
+        a[key] = {"single": s.chance(0.5), "value": [t]}
+        if dims == 3 and not monos[2] and s.chance(0.4):
+          other = ("trapezoid_trusts" if key == "edgeworth_trusts" else
+                   "edgeworth_trusts")
+          a[other] = {"single": False, "value": [[0, 2, s.choice([1, -1])]]}
+      elif theme == "dominance":
         key = s.choice(["monotonic_dominances", "range_dominances"])
-        a[key] = {"single": s.chance(0.5), "value": [[mains[0], mains[1]]]}
-      free2 = [c for c in conds if c not in used_un]
-      if len(free2) >= 2 and s.chance(0.3):
+        pairs = [[0, 1]]
+        if dims == 3 and monos[2] and s.chance(0.5):
+          pairs.append([0, 2])
+        a[key] = {"single": len(pairs) == 1 and s.chance(0.5), "value": pairs}
+      elif theme == "joint_mono":
         a["joint_monotonicities"] = {"single": s.chance(0.5),
-                                     "value": [[free2[0], free2[1]]]}
+                                     "value": [[0, 1]]}
       omin, omax = init_safe_bounds(*gen_bounds(s))
       a["output_min"], a["output_max"] = omin, omax
       a["num_projection_iterations"] = s.choice([10, 5, 15])
@@ -841,7 +857,7 @@ class LayerBuilder(object):
       a["clip_inputs"] = s.chance(0.6)
       a["interpolation"] = s.choice(["hypercube", "simplex"])
       inits = ["random_uniform_or_linear_initializer", "linear_initializer"]
-      if not a["unimodalities"] and not a["joint_unimodalities"]:
+      if theme not in ("unimodal", "joint_unimodal"):
         inits.append("random_monotonic_initializer")
       a["kernel_initializer"] = s.choice(inits)
       a["kernel_regularizer"] = _reg_arg(s, ["torsion", "laplacian"], dims)
@@ -1190,3 +1206,129 @@ def seed_derived(spec):
   if b == "layer":
     return spec["kind"] == "rtl"
   return False
+
+
+# ---------------------------------------------------------------------------
+# Premade AggregateFunction (ragged inputs; C11 only)
+
+
+def ragged_inputs(tf, inputs):
+  """Turns flat (n, 1) columns into ragged rows of lengths 1,2,3,1,2,3,..."""
+  n = int(inputs[0].shape[0])
+  lens = []
+  total = 0
+  k = 0
+  while total < n:
+    l = min(1 + (k % 3), n - total)
+    lens.append(l)
+    total += l
+    k += 1
+  out = []
+  for c in inputs:
+    vals = tf.reshape(tf.convert_to_tensor(c), [-1])
+    out.append(tf.RaggedTensor.from_row_lengths(vals, lens))
+  return out
+
+
+class AggregateBuilder(object):
+  NAME = "aggregate"
+  WEIGHT = {"C03": 0.0, "C11": 0.35}
+  RAGGED = True
+
+  @staticmethod
+  def gen(s, tier):
+    n_feat = s.integer(1, 3)
+    feats = []
+    for i in range(n_feat):
+      fs = s.sub("feature", i)
+      size = fs.weighted([(2, 5), (3, 3)])
+      if fs.chance(0.3):
+        f = gen_categorical_feature(fs, "f%d" % i, size)
+      else:
+        f = gen_numeric_feature(fs, "f%d" % i, size, allow_unimodal=True)
+      feats.append(f)
+    omin, omax = gen_bounds(s)
+    m = {
+        "middle_dimension": s.integer(1, 3),
+        "middle_lattice_size": s.weighted([(2, 3), (3, 2)]),
+        "middle_calibration": s.chance(0.5),
+        "middle_calibration_num_keypoints": s.integer(2, 5),
+        "middle_calibration_input_keypoints_type": s.choice(
+            ["fixed", "learned_interior"]),
+        "middle_lattice_interpolation": s.choice(["hypercube", "simplex"]),
+        "aggregation_lattice_interpolation": s.choice(["hypercube", "simplex"]),
+        "output_min": omin,
+        "output_max": omax,
+        "output_calibration": s.chance(0.4),
+    }
+    # (middle_calibration with the default middle_monotonicity=None is rejected
+    # by the PWLCalibration constructor.)
+    m["middle_monotonicity"] = (s.choice(["none", 0, "increasing", 1])
+                                if m["middle_calibration"] else None)
+    if not m["middle_calibration"]:
+      # Without middle calibration the unclipped middle lattice is fed values
+      # from [-1, 1]; simplex interpolation is undefined outside [0, size-1]
+      # (raises inside tf.gather) - a totality matter (C16), not a round-trip
+      # one, so such configurations are not generated here.
+      m["middle_lattice_interpolation"] = "hypercube"
+    n_init = s.integer(2, 4) if m["output_calibration"] else 2
+    m["output_initialization"] = gen_output_init(s, omin, omax, n_init)
+    m["output_calibration_input_keypoints_type"] = (
+        "learned_interior" if m["output_calibration"] and s.chance(0.3)
+        else "fixed")
+    m["regularizers"] = [["calib_hessian", 0.0, 1e-3]] if s.chance(0.2) else []
+    return {"builder": "aggregate", "features": feats, "model": m}
+
+  @staticmethod
+  def build(spec):
+    _, _, tfl = env.mods()
+    m = spec["model"]
+    fcs = [feature_config(tfl, f) for f in spec["features"]]
+    regs = [tfl.configs.RegularizerConfig(name=r[0], l1=r[1], l2=r[2])
+            for r in m.get("regularizers", [])] or None
+    cfg = tfl.configs.AggregateFunctionConfig(
+        feature_configs=fcs,
+        regularizer_configs=regs,
+        middle_dimension=m["middle_dimension"],
+        middle_lattice_size=m["middle_lattice_size"],
+        middle_calibration=m["middle_calibration"],
+        middle_calibration_num_keypoints=m["middle_calibration_num_keypoints"],
+        middle_calibration_input_keypoints_type=m[
+            "middle_calibration_input_keypoints_type"],
+        middle_monotonicity=m["middle_monotonicity"],
+        middle_lattice_interpolation=m["middle_lattice_interpolation"],
+        aggregation_lattice_interpolation=m[
+            "aggregation_lattice_interpolation"],
+        output_min=m["output_min"],
+        output_max=m["output_max"],
+        output_calibration=m["output_calibration"],
+        output_calibration_num_keypoints=len(m["output_initialization"]),
+        output_initialization=list(m["output_initialization"]),
+        output_calibration_input_keypoints_type=m[
+            "output_calibration_input_keypoints_type"])
+    return tfl.premade.AggregateFunction(cfg)
+
+  @staticmethod
+  def features(spec):
+    feats = oracle_features(spec["features"])
+    for f in feats:
+      if f["type"] == "num":
+        f["direction"] = 0  # no end-to-end promise is checked for this model
+      else:
+        f["pairs"] = []
+    return feats
+
+  @staticmethod
+  def bounds(spec):
+    return None, None
+
+  @staticmethod
+  def to_model_inputs(tf, inputs):
+    return ragged_inputs(tf, inputs)
+
+  @staticmethod
+  def simplifications(spec):
+    return []
+
+
+BUILDERS["aggregate"] = AggregateBuilder
